@@ -305,7 +305,8 @@ def run_case(seed, index, props, direction=None, verbose=False):
     editable = [r for r in rs_main if isinstance(getattr(r, 'calendar', None), DirectCalendar)]
     if editable and (props & {'C03', 'C06', 'C08', 'C09', 'C04'}):
         for r in editable:
-            r.calendar.set_units({datetime(2024, m, d): 8 for m in (1, 2) for d in range(1, 29, 2)})
+            # new capacity on odd days, and the capacity of days configured before LOWERED (leave / part time): a stale view over-books them
+            r.calendar.set_units({datetime(2024, m, d): 8 for m in (1, 2) for d in range(1, 29, 2)} | {datetime(2024, m, d): rng.choice([0, 2]) for m in (1, 2) for d in range(2, 29, 6)})
         for who, mk_s in (('a new scheduler', lambda: sched(rs_main)), ('the SAME scheduler object', lambda: sc_main)):
             try:
                 s4 = mk_s().calc(w)
